@@ -446,6 +446,25 @@ pub fn run(tier: &str, _seed: u64) -> Sink {
         let (ok, ms) = check_case(&id, &it.text, c, &mut sink);
         (sink, ok, ms)
     });
+    // the same files as they look on Windows: every line ending of the input is CRLF (no input of the repository's
+    // suite is); the output's line endings are the configured ones, so any `\r` in it was carried over
+    let crlf_items: Vec<Item> = items
+        .iter()
+        .filter(|it| !it.rel.contains(".lines#") && !it.text.contains('\r'))
+        .map(|it| Item { rel: format!("{}~crlf-input", it.rel), syntax: it.syntax, text: it.text.replace('\n', "\r\n") })
+        .collect();
+    let cg: Vec<(String, Config)> = g.iter().filter(|(n, _)| ["default", "w80-sp2-single-crlf", "w40"].contains(&n.as_str())).cloned().collect();
+    let crlf_n = crlf_items.len() * cg.len();
+    let crlf_parts = par_map(crlf_n, threads(), |k| {
+        let it = &crlf_items[k / cg.len()];
+        let (gname, gc) = &cg[k % cg.len()];
+        let mut c = *gc;
+        c.syntax = it.syntax;
+        let mut sink = Sink::default();
+        let id = format!("corpus:{}@{}", it.rel, gname);
+        let (ok, ms) = check_case(&id, &it.text, c, &mut sink);
+        (sink, ok, ms)
+    });
     let n = items.len() * g.len();
     let parts = par_map(n, threads(), |k| {
         let it = &items[k / g.len()];
@@ -461,7 +480,7 @@ pub fn run(tier: &str, _seed: u64) -> Sink {
     let mut formatted = 0usize;
     let mut total_ms: u128 = 0;
     let mut max_ms: u128 = 0;
-    for (s, ok, ms) in parts.into_iter().chain(sweep.into_iter()).chain(gen_parts.into_iter()) {
+    for (s, ok, ms) in parts.into_iter().chain(sweep.into_iter()).chain(gen_parts.into_iter()).chain(crlf_parts.into_iter()) {
         sink.merge(s);
         if ok {
             formatted += 1;
@@ -469,7 +488,7 @@ pub fn run(tier: &str, _seed: u64) -> Sink {
         total_ms += ms;
         max_ms = max_ms.max(ms);
     }
-    sink.s(json!({"pipeline": {"files": items.len(), "configs": g.len(), "cases": n + sweep_n + gen_n, "width_sweep_cases": sweep_n, "generated_programs": gen_items.len(), "generated_cases": gen_n, "formatted": formatted, "oracle_evaluations": formatted,
+    sink.s(json!({"pipeline": {"files": items.len(), "configs": g.len(), "cases": n + sweep_n + gen_n + crlf_n, "width_sweep_cases": sweep_n, "generated_programs": gen_items.len(), "generated_cases": gen_n, "crlf_input_cases": crlf_n, "formatted": formatted, "oracle_evaluations": formatted,
         "cpu_ms": total_ms as u64, "max_case_ms": max_ms as u64, "configs_used": g.iter().map(|x| x.0.clone()).collect::<Vec<_>>()}}));
     sink
 }
